@@ -10,12 +10,12 @@ from .inval import api_functions
 
 EMPTIERS = ("ILLlp_basis_free", "ILLlp_basis_init")
 
-_mf = {}
-_why = {}
 
 
 def may_fail(prog, g, depth=0):
     """can g return a non-zero int on a path that is not an allocation-failure path?"""
+    _mf = prog.__dict__.setdefault("_shell_mf", {})
+    _why = prog.__dict__.setdefault("_shell_why", {})
     if g.key in _mf:
         return _mf[g.key]
     if depth > 6 or "int" not in (g.ret or ""):
@@ -142,7 +142,7 @@ def run(prog, E, prefix="mpq_", rule="R-BASISSHELL"):
                         if g is not None and not may_fail(prog, g):
                             r = [cells.put(st, cells.cell(lhs), Z)]
                         elif g is not None:
-                            why = _why.get(g.key, {("other",)})
+                            why = prog.__dict__.get("_shell_why", {}).get(g.key, {("other",)})
                             if why and all(w[0] == "call" and (w[1], tuple(show(rc[3][k]) for k in w[2] if k < len(rc[3]))) in st[3] for w in why):
                                 r = [cells.put(st, cells.cell(lhs), Z)]     # every failure of g is a validator that already accepted these arguments
                         return [(s[0], s[1], 0 if cells.get(s, cells.cell(lhs)) == Z else s[2], s[3]) for s in r]
